@@ -55,6 +55,24 @@ def build_harness():
     _built = True
 
 
+LIB_CRATES = ["paseto-core", "paseto-json", "paseto-v1", "paseto-v2", "paseto-v3", "paseto-v3-aws-lc", "paseto-v4", "paseto-v4-sodium"]
+
+
+def build_libs():
+    """Build only the library crates (and serde_json) in the harness workspace: enough for checks that compile their own
+    programs against the rlibs (C18) and independent of whether the harness' own generic drivers still type-check."""
+    lock = os.path.join(HARNESS_DIR, "Cargo.lock")
+    if not os.path.exists(lock):
+        shutil.copy(os.path.join(REPO, "Cargo.lock"), lock)
+    cmd = ["cargo", "build", "--offline", "-q", "-p", "serde_json"]
+    for c in LIB_CRATES:
+        cmd += ["-p", c]
+    p = subprocess.run(cmd, cwd=HARNESS_DIR, env=cargo_env(), stdout=subprocess.PIPE, stderr=subprocess.STDOUT, text=True)
+    if p.returncode != 0:
+        sys.stderr.write(p.stdout[-6000:])
+        raise ToolError("the library crates do not build from the current /repo tree")
+
+
 def harness(args, timeout=3600, env_extra=None, check=True, stdin=None):
     build_harness()
     env = dict(os.environ)
